@@ -160,3 +160,132 @@ def sample_cases(vectors, results, n=4):
     for v in vectors[::step][:3]:
         out.append({"vector": v})
     return out
+
+
+# ---------------------------------------------------------------------------------------------
+# C10 (retained state never aliases the caller's packet buffer), naming half
+
+C10_CONFIGS = {"quick": [("dnsmsg", 2, "wide"), ("nbns", 3, "wide")],
+               "thorough": [("dnsmsg", 2, "wide"), ("dnsmsg", 5, "deep"), ("nbns", 4, "wide")]}
+
+
+def _transcripts(ctx, binary, vectors, tag, seed=None):
+    """Run the naming histories of `vectors` with fresh buffers and with one shared, scribbled buffer."""
+    vp = os.path.join(ctx.scratch, "c10dns_%s.ndjson" % tag)
+    with open(vp, "w") as f:
+        for v in vectors:
+            f.write(json.dumps(v, separators=(",", ":")) + "\n")
+    outs = []
+    for mode in ("fresh", "shared"):
+        tp = os.path.join(ctx.scratch, "c10dns_%s.%s.ndjson" % (tag, mode))
+        p = vlib.run_driver(ctx, binary, ["-mode", mode, "-vectors", vp, "-out", tp], timeout=900,
+                            env={"VERIF_SEED": str(seed if seed is not None else ctx.seed)})
+        if "skipped" in p.stdout:
+            raise vlib.InfraError("walkdrv -mode %s: %s" % (mode, p.stdout.strip()[-200:]))
+        outs.append(vlib.read_ndjson(tp))
+    if len(outs[0]) != len(outs[1]):
+        raise vlib.InfraError("C10 dns: transcripts have different length (%d / %d)" % (len(outs[0]), len(outs[1])))
+    return outs
+
+
+def _diff_fields(a, b):
+    out = []
+    for k in sorted(set(a) | set(b)):
+        if a.get(k) == b.get(k):
+            continue
+        if isinstance(a.get(k), dict) and isinstance(b.get(k), dict):
+            out += ["%s.%s" % (k, f) for f in sorted(set(a[k]) | set(b[k])) if a[k].get(f) != b[k].get(f)]
+        else:
+            out.append(k)
+    return out
+
+
+def _retains(rec):
+    if rec.get("names") or rec.get("name"):
+        return True
+    for k in ("returned", "table"):
+        e = rec.get(k) or {}
+        if any(e.get(f) for f in ("a", "aaaa", "cname", "ptr")):
+            return True
+    h = rec.get("host") or {}
+    return bool(h.get("mdns") or h.get("nbns"))
+
+
+def _c10_differs(ctx, binary, vectors, field, tag, seed=None):
+    fresh, shared = _transcripts(ctx, binary, vectors, tag, seed)
+    return any(field in _diff_fields(a, b) for a, b in zip(fresh, shared))
+
+
+def c10_part(ctx):
+    """For checks/c10.py: the DNS / mDNS / NBNS naming histories (well-formed vectors of spec/Walk.tla on which every
+    handler returns) delivered as frames to one DNSHandler and session, once in private buffers and once through ONE
+    receive buffer that is scribbled over after every step. Everything retained is written after the scribble: the
+    entry returned by ProcessDNS, DNSFind of the question name, the names / addresses / MACs returned by ProcessMDNS,
+    the NBNS name, the host's and MAC entry's learned names, and at the end the whole DNS table. Each field that
+    differs is confirmed by a second execution and reported as C10:dns:<field>.
+    Returns (evaluations, distinct_nontrivial) = (steps compared x 2, distinct vectors that retained something)."""
+    if not hook_present():
+        raise vlib.InfraError("dns_naming.VerifNew is absent from the tree under test")
+    binary = build(ctx)
+    kfs = open_kfs()
+    vectors, seen = [], set()
+    jobs = C10_CONFIGS[ctx.tier]
+    with concurrent.futures.ThreadPoolExecutor(max_workers=3) as ex:
+        futs = [ex.submit(run_tlc_walk, ctx, w, n, a, kfs) for (w, n, a) in jobs]
+        for f in futs:
+            _, vs = f.result()
+            for v in vs:
+                # the driver only replays accepted inputs on which no handler is predicted to fail
+                if v["verdict"] != "accept" or any(m != "ok" for m in v["mech"].values()):
+                    continue
+                d = vlib.digest([v["w"], v["seq"], v["aux"]])
+                if d in seen:
+                    continue
+                seen.add(d)
+                v["id"] = len(vectors)
+                v["seed"] = ctx.seed
+                vectors.append(v)
+    if not vectors:
+        raise vlib.InfraError("C10 dns: TLC exported no replayable vectors")
+    fresh, shared = _transcripts(ctx, binary, vectors, "all")
+    steps = sum(1 for r in fresh if "step" in r)
+    if steps == 0:
+        raise vlib.InfraError("C10 dns: empty transcript")
+    retained = set(r["v"] for r in fresh if "step" in r and _retains(r))
+    reported = set()
+    for a, b in zip(fresh, shared):
+        if a == b:
+            continue
+        for field in _diff_fields(a, b):
+            key = "C10:dns:%s%s" % ((a.get("kind") + ".") if a.get("kind") else "", field)
+            if key in reported:
+                continue
+            reported.add(key)
+            # confirm on the smallest history that shows it: the vector alone, its recent past, the whole prefix
+            vid = a.get("v")
+            cands = []
+            if vid is not None:
+                cands = [[vectors[vid]], vectors[max(0, vid - 20):vid + 1], vectors[:vid + 1]]
+            else:
+                cands = [vectors]                       # difference in the final table dump
+            hist = None
+            for c in cands:
+                if _c10_differs(ctx, binary, c, field, "confirm"):
+                    hist = c
+                    break
+            if hist is None:
+                raise vlib.InfraError("shared-buffer difference %s did not reproduce" % key)
+            ctx.report(key, "dns_naming state differs between private buffers and one reused receive buffer in field %s "
+                            "(fresh %s / shared %s)" % (field, json.dumps(a)[:200], json.dumps(b)[:200]),
+                       {"family": "dns", "kind": "dns", "vectors": hist, "field": field, "seed": ctx.seed})
+    ctx.coverage.setdefault("samples", []).append({"family": "dns", "vector": vectors[len(vectors) // 2],
+                                                    "step": next((r for r in fresh if r.get("v") == len(vectors) // 2), None)})
+    return steps * 2, len(retained)
+
+
+def c10_replay(ctx, rp):
+    """True if the fresh / shared transcripts of the recorded history still differ in the recorded field."""
+    if not hook_present():
+        raise vlib.InfraError("dns_naming.VerifNew is absent from the tree under test")
+    binary = build(ctx)
+    return _c10_differs(ctx, binary, rp["vectors"], rp["field"], "replay", rp.get("seed"))
